@@ -2,13 +2,15 @@
 _WHY = {"2": "C04.Spec.spec_okb (spec04_okb) false: after some run the stored point read back with "
              "StoredPoint::load_quietly is neither the previous one nor exactly the fetched manifest (which then must "
              "have validated) with exactly its listed files, all present with matching hashes - or it disappeared "
-             "although its cached number/thisUpdate agreed with its manifest, or the run failed"}
+             "although its cached number/thisUpdate agreed with its manifest, or the run failed; or (usable04_okb) the run left a "
+             "consistent stored point as it was, its manifest still validates as a stored manifest under the run's policy, "
+             "and the payload lacks items of that version's object set (the stored version was not usable for validation)"}
 _M = "model_obs (c_base CASE) (c_runs CASE)"
 SPEC = {
     "module": "C04.Property",
     "targets": ["C04/Property.vo"],
     "theorems": ["C04_store_changes_only_when_complete", "C04_unchanged_usable", "C04_history_verified",
-                 "C04_model_satisfies_spec", "C04_nonvacuous"],
+                 "C04_model_satisfies_spec", "C04_model_satisfies_usable", "C04_nonvacuous"],
     "streams": [
         {"name": "hist", "bin": "c03", "env": {"C03_STREAM": "hist"}, "check_module": "C04.Spec", "model_expr": _M, "why": _WHY},
         {"name": "order", "bin": "c03", "env": {"C03_STREAM": "order"}, "check_module": "C04.Spec", "model_expr": _M, "why": _WHY},
